@@ -41,6 +41,12 @@ inductive Exc (V : Type) where
 
 abbrev M (V : Type) := Except (Exc V)
 
+/-- a method that assigns to `self`: the (possibly updated) receiver travels with the outcome, also when the
+method leaves through a `raise` statement -/
+inductive Outcome (V : Type) where
+  | ret (v : OVal V)
+  | raise (e : OVal V)
+
 /-- what calling a callable does is not utype's business: every translated function takes `W : World V`,
 every theorem is for all `W` (or for the `World` an encoding builds from the hand model's own world) -/
 structure World (V : Type) where
@@ -52,6 +58,9 @@ structure World (V : Type) where
   clsAttr : Nat → String → Option (OVal V)
   /-- `issubclass(C, (names…))` for a class value -/
   issubclass : OVal V → List String → M V Bool := fun _ _ => throw (.unmodelled "issubclass")
+  /-- a method of a *threaded* object that is not translated (`context.transformer(value, t)` on the caller's own
+  context): it may change the object, which is handed back with the outcome — also when the method raises -/
+  method : String → OVal V → List (OVal V) → M V (OVal V × Outcome V) := fun _ _ _ => throw (.unmodelled "method")
 
 variable {V : Type}
 
@@ -535,11 +544,6 @@ def tryExcept {α : Type} (classes : List String) (body : M V α) (handler : Exc
   | .ok a => .ok a
   | .error e => if e.isA classes then handler e else .error e
 
-/-- a method that assigns to `self`: the (possibly updated) receiver travels with the outcome, also when the
-method leaves through a `raise` statement -/
-inductive Outcome (V : Type) where
-  | ret (v : OVal V)
-  | raise (e : OVal V)
 
 /-- unfolding set for the `Except` plumbing of translated code -/
 macro "obj_simp" : tactic =>
